@@ -264,7 +264,9 @@ def cubic_spline(
 
     if inverse:
         outputs = outputs * (right - left) + left
+        logabsdet = logabsdet + math.log(right - left) - math.log(top - bottom)
     else:
         outputs = outputs * (top - bottom) + bottom
+        logabsdet = logabsdet + math.log(top - bottom) - math.log(right - left)
 
     return outputs, logabsdet
